@@ -1194,7 +1194,7 @@ func ruleC17EveryClientAsked(c *Ctx) {
 // makes the SDK reject ids that an implementation following the documented format wrote.
 func ruleC18IDsAreDataNotPatterns(c *Ctx) {
 	u := c.U1
-	c.rule("C18.ids-are-data-not-patterns", "in package appencryption every fmt.Sprintf/Errorf/Fprintf-style call has a constant format string, and every regexp.Compile/MustCompile/Match*/QuoteMeta-less pattern is a constant: run-time strings (key ids, partition ids) are only ever data", 4)
+	c.rule("C18.ids-are-data-not-patterns", "in package appencryption every fmt.Sprintf/Errorf/Fprintf-style call has a constant format string, and every regexp.Compile/MustCompile/Match*/QuoteMeta-less pattern is a constant: run-time strings (key ids, partition ids) are only ever data; no id is tokenised with strings.Split*/Fields/Cut", 4)
 	n := 0
 	for _, f := range u.RepoFuncs {
 		root := rootFunc(f)
@@ -1208,6 +1208,15 @@ func ruleC18IDsAreDataNotPatterns(c *Ctx) {
 			}
 			idx := -1
 			what := ""
+			// ids are not taken apart at a separator their components may contain
+			if g.Pkg.Pkg.Path() == "strings" {
+				switch g.Name() {
+				case "Split", "SplitN", "SplitAfter", "SplitAfterN", "Fields", "FieldsFunc", "Cut":
+					c.CallSites++
+					c.bad(trimPkgDirs(shortName(f))+"/strings."+g.Name(), u.ipos(i), "a key id / partition id is taken apart with strings."+g.Name()+": partition, service and product names may themselves contain the separator, so ids that follow the documented format are mis-parsed — records written by another region or another implementation are refused")
+				}
+				return
+			}
 			switch g.Pkg.Pkg.Path() {
 			case "fmt":
 				switch g.Name() {
